@@ -531,6 +531,72 @@ def compare_model(m, i, wl):
     return d
 
 
+def eval_lenient_writer(mode, records):
+    """A sorting writer created with a non-strict stringency under gdc-1.0.0 is offered records some of which carry a
+    value the scheme cannot build (scheme-less text records).  Whatever it does with them: if close() returns normally the
+    output contains every record whose write returned normally, exactly as it was written.
+    `records`: list of {"pos": int, "bad": None | [column, text]}."""
+    import io
+    from maflib.header import MafHeader
+    from maflib.writer import MafWriter
+    from maflib.record import MafRecord
+    from maflib.column import MafColumnRecord
+    from maflib.validation import ValidationStringency as VS
+    from .. import impl as _impl, sortcases as SC
+    sch = _impl.scheme_by_annotation("gdc-1.0.0")
+    names = sch.column_names()
+    base = list(SC._base_fields("gdc-1.0.0", None))
+    where = {"kind": "lenient-writer", "mode": mode, "records": records}
+    h = MafHeader.from_lines(["#version gdc-1.0.0", "#sort.order Coordinate"], validation_stringency=VS.Silent)
+    buf = io.StringIO()
+    buf.close = lambda: None
+    with _impl.LogCapture():
+        try:
+            w = MafWriter.from_fd(buf, h, validation_stringency=_impl.MODES[mode], assume_sorted=False)
+        except Exception as e:  # noqa
+            return [dict(where, what="opening the writer failed with %s" % exc_name(e))]
+        accepted = []
+        for r in records:
+            fields = dict(zip(names, base))
+            fields["Chromosome"], fields["Start_Position"], fields["End_Position"] = "1", str(r["pos"]), str(r["pos"])
+            if r.get("bad"):
+                fields[r["bad"][0]] = r["bad"][1]
+            rec = MafRecord()
+            for k, n in enumerate(names):
+                rec.add(MafColumnRecord(n, fields[n], column_index=k))      # a text record from a scheme-less source
+            text = str(rec)
+            try:
+                w += rec
+                accepted.append(text)
+            except Exception:  # noqa
+                pass
+        try:
+            w.close()
+        except Exception:  # noqa
+            return []                      # close() reported a failure: the property speaks about a close() that returns normally
+    body = [l for l in buf.getvalue().split("\n") if l and not l.startswith("#")][1:]
+    missing = [t for t in accepted if t not in body]
+    if missing:
+        return [dict(where, what="close() of a %s sorting writer returned normally but %d of the %d records whose write returned normally are not in the output as written" % (
+            mode, len(missing), len(accepted)), missing=[m.split("\t")[:8] for m in missing][:3])]
+    return []
+
+
+def lenient_writer_cases(ctx, out):
+    rng = ctx.rng("c18-lenient")
+    bads = [["Strand", "?"], ["Entrez_Gene_Id", "n/a"], ["Variant_Type", "weird"], ["Reference_Allele", "acgu"], ["Tumor_Sample_UUID", "not-a-uuid"]]
+    for _ in range(ctx.scale(12, 100)):
+        n = rng.randrange(1, 6)
+        records = [{"pos": rng.choice([5, 9, 10, 100, 1000]), "bad": rng.choice(bads) if rng.random() < 0.4 else None} for _k in range(n)]
+        if not any(r["bad"] for r in records):
+            records[rng.randrange(n)]["bad"] = rng.choice(bads)
+        mode = rng.choice(["Lenient", "Silent"])
+        out.evaluations += 1
+        out.failures += eval_lenient_writer(mode, records)
+        out.distribution["non-strict sorting writer offered records the scheme cannot build"] += 1
+        out.nontrivial.add(("lenient-writer", mode, json.dumps(records, sort_keys=True)))
+
+
 def run(ctx):
     out = Outcome()
     out.rule = ("workloads (n records, capacity, spill policy, optional early abandonment after j items, optional second iteration); a fault-free run fixes the sequence of I/O calls "
@@ -624,6 +690,7 @@ def run(ctx):
     out.extra["traces_compared_with_model"] = len(reqs)
     out.extra["fault_positions"] = len(fault_positions)
     out.extra["fault_position_samples"] = fault_positions[:8]
+    lenient_writer_cases(ctx, out)
     return out
 
 
@@ -688,6 +755,12 @@ def _replay_plan(f):
 
 
 def replay_case(ctx, failure):
+    if failure.get("kind") == "lenient-writer" and "records" in failure:
+        fails = eval_lenient_writer(failure["mode"], failure["records"])
+        print("replay C18: a %s sorting MafWriter (gdc-1.0.0, sort.order Coordinate) offered %d scheme-less text record(s): %s" % (failure["mode"], len(failure["records"]), failure["records"]))
+        for x in fails:
+            print("  oracle: %s" % x["what"])
+        return fails
     """Re-evaluate the stored failing input on the current implementation; return the list of failure dicts it
     produces now (empty list = the property holds on that input)."""
     f = failure
